@@ -185,7 +185,8 @@ def _build_site(s, pool):
     from holopy.core.prior import ComplexPrior
     k = s["k"]
     if k == "fix":
-        return s["v"]
+        # (in array mode every other fixed number is a 0-d array, as indexing a NumPy array with an ellipsis or reading an attribute leaves it)
+        return np.array(s["v"]) if _ARRAYS[0] and isinstance(s["v"], float) and int(s["v"] * 1e6) % 2 else s["v"]
     if k == "p":
         return pool[s["i"]]
     if k == "lin":
